@@ -82,11 +82,33 @@ Proof.
     rewrite after_cons. apply IH; [exact Hops|]. apply Hstep; assumption.
 Qed.
 
+(* updateTaskStatus refreshes the ids of the roster task only from fields the status carries
+   (status_refresh_guarded = true, regenerated): an answer that lacks executor_id / agent_id /
+   source has exactly the effect of a complete one *)
+Lemma refreshed_id om t ros : refreshed om t ros = ros.
+Proof. reflexivity. Qed.
+
+Lemma answer_with_eq w om : answer_with w om = answer w.
+Proof.
+  unfold answer, answer_with. destruct (w_pending w) as [|[t s] rest]; [reflexivity|].
+  rewrite !refreshed_id. reflexivity.
+Qed.
+
+Lemma step_bare w om : step w (OAnswerBare om) = step w OAnswer.
+Proof. cbn [step]. apply answer_with_eq. Qed.
+
+Lemma run_bare n om : forall w, run w (repeat (OAnswerBare om) n) = run w (repeat OAnswer n).
+Proof.
+  induction n as [|n IH]; intro w; [reflexivity|].
+  cbn [repeat run]. rewrite step_bare. destruct (step w OAnswer) as [w1 c1]. rewrite IH. reflexivity.
+Qed.
+
 (* the quiescent step of the harness is a particular history *)
 Lemma hstep_is_run w o :
   hstep w o = run w (o :: repeat OAnswer (length (w_pending (fst (step w o))))).
 Proof.
-  unfold hstep. cbn [run]. destruct (step w o) as [w1 c1]. cbn [fst]. reflexivity.
+  unfold hstep. cbn [run]. destruct (step w o) as [w1 c1]. cbn [fst].
+  destruct o; cbn [drain_op]; try reflexivity. rewrite run_bare. reflexivity.
 Qed.
 
 (* ---------- master_kill / roster_deactivate ---------- *)
@@ -274,7 +296,7 @@ Qed.
 
 Lemma inv1_answer w : Inv1 w -> Inv1 (fst (answer w)) /\ Forall call_id1 (snd (answer w)).
 Proof.
-  intros H. unfold answer. destruct (w_pending w) as [|[t s] rest]; [split; [exact H|constructor]|].
+  intros H. unfold answer, answer_with. destruct (w_pending w) as [|[t s] rest]; [split; [exact H|constructor]|].
   destruct H as [F [M [S A]]].
   destruct (memN s recon_kill_states && negb (recon_guarded && in_roster t (w_roster w))); cbn.
   - split; [|repeat constructor]. repeat split; try assumption. apply fw_all_master_kill. exact A.
@@ -358,6 +380,8 @@ Proof.
   - split; [exact H|constructor].
   - apply inv1_resub. apply (inv1_crashstep w p k H).
   - apply inv1_resub. apply inv1_subscribe. exact H.
+  - apply inv1_subscribe. exact H.
+  - rewrite answer_with_eq. apply inv1_answer. exact H.
 Qed.
 
 Lemma inv1_boot : Inv1 (boot true).
@@ -454,7 +478,7 @@ Lemma answer_fields w :
   w_failover w1 = w_failover w /\ w_store w1 = w_store w /\ w_nextfw w1 = w_nextfw w /\
   w_mem w1 = w_mem w /\ w_envs w1 = w_envs w /\ w_ntask w1 = w_ntask w /\ w_nenv w1 = w_nenv w.
 Proof.
-  unfold answer. destruct (w_pending w) as [|[t s] rest]; [cbn; repeat split|].
+  unfold answer, answer_with. destruct (w_pending w) as [|[t s] rest]; [cbn; repeat split|].
   destruct (memN s recon_kill_states && negb (recon_guarded && in_roster t (w_roster w)));
     cbn; repeat split.
 Qed.
@@ -510,7 +534,7 @@ Qed.
 
 Lemma invS_step w o : is_tamper o = false -> InvS w -> InvS (fst (step w o)).
 Proof.
-  intros T H. destruct o as [k|e|e keep|e|t|t s| |v| |p k| |k s|t|t| |p k| ]; cbn [step]; try discriminate.
+  intros T H. destruct o as [k|e|e keep|e|t|t s| |v| |p k| |k s|t|t| |p k| |om|om]; cbn [step]; try discriminate.
   - destruct (create_fields w k) as [_ [S [X [M _]]]]. unfold InvS. rewrite S, X, M. exact H.
   - exact H.
   - destruct (destroy_fields w e keep true) as [_ [S [X [M _]]]]. unfold InvS. rewrite S, X, M. exact H.
@@ -527,6 +551,8 @@ Proof.
   - exact H.
   - apply invS_resub. apply (invS_crashstep w p k H).
   - apply invS_resub. apply invS_subscribe. left. exact H.
+  - apply invS_subscribe. left. exact H.
+  - rewrite answer_with_eq. destruct (answer_fields w) as [_ [S [X [M _]]]]. unfold InvS. rewrite S, X, M. exact H.
 Qed.
 
 Lemma invS_boot fo : InvS (boot fo).
@@ -559,9 +585,17 @@ Proof.
   intro H. apply in_app_or in H. destruct H as [H|H]; [exact H|contradiction].
 Qed.
 
+Lemma answer_launches w t f : In (CLaunch t f) (snd (answer w)) -> f = w_mem w.
+Proof.
+  unfold answer, answer_with. destruct (w_pending w) as [|[t0 s] rest]; [intros []|].
+    destruct (memN s recon_kill_states && negb (recon_guarded && in_roster t0 (w_roster w))); cbn.
+    + intros [H|[]]. discriminate.
+    + intros [].
+Qed.
+
 Lemma step_launches w o t f : In (CLaunch t f) (snd (step w o)) -> f = w_mem w.
 Proof.
-  destruct o as [k|e|e keep|e|t1|t1 s| |v| |p k| |k s|t1|t1| |p k| ]; cbn [step]; try (cbn; intros []; fail).
+  destruct o as [k|e|e keep|e|t1|t1 s| |v| |p k| |k s|t1|t1| |p k| |om|om]; cbn [step]; try (cbn; intros []; fail).
   - apply create_launches.
   - unfold destroy. destruct (negb (memN e (w_envs w))); [intros []|].
     destruct keep; cbn; [intros []|]. intro H. apply in_map_iff in H. destruct H as [x [E _]]. discriminate.
@@ -571,15 +605,14 @@ Proof.
   - cbn. intro H. apply in_map_iff in H. destruct H as [x [E _]]. discriminate.
   - cbn. intros [H|[H|[]]]; discriminate.
   - apply crashstep_launches.
-  - unfold answer. destruct (w_pending w) as [|[t0 s] rest]; [intros []|].
-    destruct (memN s recon_kill_states && negb (recon_guarded && in_roster t0 (w_roster w))); cbn.
-    + intros [H|[]]. discriminate.
-    + intros [].
+  - apply answer_launches.
   - apply create_held_launches.
   - destruct (alive_at t1 (w_master w)); intros [].
   - destruct (alive_at t1 (w_master w)); intros [].
   - intro H. apply resub_launches in H. apply (crashstep_launches w p k t f H).
   - intro H. apply resub_launches in H. destruct (subscribe_no_launch w t f H).
+  - intro H. destruct (subscribe_no_launch w t f H).
+  - rewrite answer_with_eq. apply answer_launches.
 Qed.
 
 (* the framework id is in the store before any task is launched under it *)
@@ -671,11 +704,19 @@ Proof.
   - apply live_ok_create. exact H.
 Qed.
 
+Lemma live_ok_answer w : live_ok (w_master w) -> live_ok (w_master (fst (answer w))).
+Proof.
+  intro H. unfold answer, answer_with. destruct (w_pending w) as [|[t s] rest]; [exact H|].
+    destruct (memN s recon_kill_states && negb (recon_guarded && in_roster t (w_roster w))); cbn.
+    + apply live_ok_master_kill. exact H.
+    + exact H.
+Qed.
+
 Lemma live_ok_step w o : live_ok (w_master w) -> live_ok (w_master (fst (step w o))).
 Proof.
-  intro H. destruct o as [k|e|e keep|e|t|t s| |v| |p k| |k s|t|t| |p k| ];
+  intro H. destruct o as [k|e|e keep|e|t|t s| |v| |p k| |k s|t|t| |p k| |om|om];
     [cbn [step]|cbn [step]|cbn [step]|cbn [step]|cbn [step]|cbn [step]|cbn [step]|cbn [step]|cbn [step]
-    |rewrite step_crash|cbn [step]|cbn [step]|cbn [step]|cbn [step]|cbn [step]|cbn [step]|cbn [step]].
+    |rewrite step_crash|cbn [step]|cbn [step]|cbn [step]|cbn [step]|cbn [step]|cbn [step]|cbn [step]|cbn [step]|cbn [step]].
   - apply live_ok_create. exact H.
   - exact H.
   - apply live_ok_destroy. exact H.
@@ -691,10 +732,7 @@ Proof.
   - exact H.
   - pose proof (live_ok_prephase w p k H) as H1.
     destruct (prephase w p k) as [w1 c1]. cbn [fst] in H1. cbn. exact H1.
-  - unfold answer. destruct (w_pending w) as [|[t s] rest]; [exact H|].
-    destruct (memN s recon_kill_states && negb (recon_guarded && in_roster t (w_roster w))); cbn.
-    + apply live_ok_master_kill. exact H.
-    + exact H.
+  - apply live_ok_answer. exact H.
   - apply live_ok_create_held. exact H.
   - destruct (alive_at t (w_master w)); [|exact H]. cbn.
     apply live_ok_master_state; [apply running_live|exact H].
@@ -704,6 +742,8 @@ Proof.
     pose proof (live_ok_prephase w p k H) as H1.
     destruct (prephase w p k) as [w1 c1]. cbn [fst] in H1. cbn. exact H1.
   - cbn. exact H.
+  - exact H.
+  - rewrite answer_with_eq. apply live_ok_answer. exact H.
 Qed.
 
 Lemma live_ok_run w ops : live_ok (w_master w) -> live_ok (w_master (after w ops)).
@@ -854,12 +894,13 @@ Qed.
 
 Lemma inv2_answer w : Inv2 w -> Inv2 (fst (answer w)).
 Proof.
-  intros [C P]. unfold answer. destruct (w_pending w) as [|[t0 s] rest] eqn:EP.
+  intros [C P]. unfold answer, answer_with. destruct (w_pending w) as [|[t0 s] rest] eqn:EP.
   - cbn [fst]. unfold Inv2. rewrite EP. auto.
   - assert (Prest : pend_live rest) by (intros t s' H; apply (P t s'); right; exact H).
     assert (Ks : memN s recon_kill_states = true).
     { apply live_state_is_killed. apply (P t0 s). left. reflexivity. }
     rewrite Ks. cbn [andb].
+    change (refreshed 0 t0 (roster_activate [t0] (w_roster w))) with (roster_activate [t0] (w_roster w)).
     remember (if memN s status_activating then roster_activate [t0] (w_roster w) else w_roster w)
       as ros' eqn:Eros.
     assert (IR : forall t, in_roster t ros' = in_roster t (w_roster w)).
@@ -878,7 +919,7 @@ Qed.
 
 Lemma inv2_step w o : tame o = true -> Inv2 w -> Inv2 (fst (step w o)).
 Proof.
-  intros T H. destruct o as [k|e|e keep|e|t|t s| |v| |p k| |k s|t|t| |p k| ]; cbn [step]; try discriminate.
+  intros T H. destruct o as [k|e|e keep|e|t|t s| |v| |p k| |k s|t|t| |p k| |om|om]; cbn [step]; try discriminate.
   - apply inv2_create. exact H.
   - exact H.
   - apply inv2_destroy. exact H.
@@ -901,6 +942,7 @@ Proof.
     split; [|exact P].
     apply (covered_relabel (w_master w) _ (w_roster w)); [|intro t'; apply roster_deactivate_in_roster|exact C].
     intros x Hx. exists x. auto.
+  - rewrite answer_with_eq. apply inv2_answer. exact H.
 Qed.
 
 (* EVERY (re)subscription is followed by the implicit reconciliation (the regenerated
@@ -962,13 +1004,13 @@ Qed.
 Lemma answer_pending_length w :
   length (w_pending (fst (answer w))) = pred (length (w_pending w)).
 Proof.
-  unfold answer. destruct (w_pending w) as [|[t s] rest] eqn:E; [cbn; rewrite E; reflexivity|].
+  unfold answer, answer_with. destruct (w_pending w) as [|[t s] rest] eqn:E; [cbn; rewrite E; reflexivity|].
   destruct (memN s recon_kill_states && negb (recon_guarded && in_roster t (w_roster w))); reflexivity.
 Qed.
 
 Lemma answer_roster_nil w : w_roster w = [] -> w_roster (fst (answer w)) = [].
 Proof.
-  intro E. unfold answer. destruct (w_pending w) as [|[t s] rest]; [exact E|].
+  intro E. unfold answer, answer_with. destruct (w_pending w) as [|[t s] rest]; [exact E|].
   destruct (memN s status_activating);
     destruct (memN s recon_kill_states && negb (recon_guarded && in_roster t (w_roster w))); cbn;
     rewrite E; reflexivity.
@@ -1039,13 +1081,15 @@ Lemma guarded_spares_owned w ops : recon_guarded = true -> spares_owned w ops = 
 Proof.
   intro G. revert w. induction ops as [|o ops IH]; intro w; [reflexivity|].
   cbn [spares_owned]. apply andb_true_iff. split; [|apply IH].
-  destruct o; try reflexivity. apply negb_true_iff. unfold hits_owned.
-  destruct (w_pending w) as [|[t s] rest]; [reflexivity|].
-  destruct (owned w t) eqn:O; [|apply andb_false_r].
-  assert (IR : in_roster t (w_roster w) = true).
-  { rewrite owned_is_owned_c in O. apply owned_c_spec in O. destruct O as [r [e [Hr [I _]]]].
-    apply in_roster_spec. eauto. }
-  rewrite G, IR. cbn. rewrite andb_false_r. reflexivity.
+  assert (HO : negb (hits_owned w) = true).
+  { apply negb_true_iff. unfold hits_owned.
+    destruct (w_pending w) as [|[t s] rest]; [reflexivity|].
+    destruct (owned w t) eqn:O; [|apply andb_false_r].
+    assert (IR : in_roster t (w_roster w) = true).
+    { rewrite owned_is_owned_c in O. apply owned_c_spec in O. destruct O as [r [e [Hr [I _]]]].
+      apply in_roster_spec. eauto. }
+    rewrite G, IR. cbn. rewrite andb_false_r. reflexivity. }
+  destruct o; try reflexivity; exact HO.
 Qed.
 
 (* the regression witness (what the rule without the roster lookup got wrong) *)
@@ -1063,7 +1107,7 @@ Proof.
   induction n as [|n IH]; intros w R P L t s H.
   - destruct (w_pending w); [destruct H|discriminate].
   - cbn [repeat]. rewrite calls_cons. cbn [step]. apply in_or_app.
-    unfold answer. destruct (w_pending w) as [|[t0 s0] rest] eqn:EP; [discriminate|].
+    unfold answer, answer_with. destruct (w_pending w) as [|[t0 s0] rest] eqn:EP; [discriminate|].
     assert (Ks : memN s0 recon_kill_states = true).
     { apply live_state_is_killed. apply (P t0 s0). left. reflexivity. }
     rewrite Ks, R. cbn [in_roster existsb andb negb]. rewrite andb_false_r. cbn [negb fst snd].
@@ -1120,7 +1164,7 @@ Proof.
   intros T w Hx A.
   assert (I1 : Inv1 w) by (apply inv1_run; [exact T|apply inv1_boot]).
   assert (L0 : live_ok (w_master w)) by (apply live_ok_run; unfold boot; cbn; intros y []).
-  unfold hstep. rewrite step_crash.
+  unfold hstep. cbn [drain_op]. rewrite step_crash.
   pose proof (inv1_prephase w p k I1) as I1'. pose proof (live_ok_prephase w p k L0) as L1.
   pose proof (prephase_keeps w p k x Hx A) as K.
   destruct (prephase w p k) as [w1 c1]. cbn [fst snd] in I1', L1, K.
@@ -1200,9 +1244,10 @@ Definition untouched (w w' : world) (cs : list call) : Prop :=
 Lemma answer_untouched w : untouched w (fst (answer w)) (snd (answer w)).
 Proof.
   assert (G : recon_guarded = true) by reflexivity.
-  unfold untouched, answer. destruct (w_pending w) as [|[t s] rest].
+  unfold untouched, answer, answer_with. destruct (w_pending w) as [|[t s] rest].
   { cbn. split; [apply keeps_refl|]. repeat split; auto. intros t []. }
   rewrite G. cbn [andb].
+  change (refreshed 0 t (roster_activate [t] (w_roster w))) with (roster_activate [t] (w_roster w)).
   remember (if memN s status_activating then roster_activate [t] (w_roster w) else w_roster w)
     as ros' eqn:Eros.
   assert (KP : keeps (w_roster w) ros').
@@ -1248,7 +1293,7 @@ Qed.
 Lemma reconnect_untouched w :
   untouched w (fst (hstep w OReconnect)) (snd (hstep w OReconnect)).
 Proof.
-  unfold hstep. cbn [step].
+  unfold hstep. cbn [step drain_op].
   destruct (subscribe w) as [w1 c1] eqn:S.
   assert (W1 : w_roster w1 = w_roster w /\ w_envs w1 = w_envs w /\ w_master w1 = w_master w /\
                forall t, ~ In (CKill t) c1).
@@ -1262,6 +1307,25 @@ Proof.
   - intros x Hx Rx. apply M2; [rewrite M1; exact Hx|rewrite R1; exact Rx].
   - intros t Ht. apply in_app_or in Ht. destruct Ht as [Ht|Ht]; [destruct (K1 t Ht)|].
     rewrite <- R1. apply K2. exact Ht.
+Qed.
+
+(* ... and the same when the answers lack executor_id / agent_id / source *)
+Lemma reconnect_omit_is_reconnect w om : hstep w (OReconnectOmit om) = hstep w OReconnect.
+Proof.
+  unfold hstep. cbn [step drain_op]. destruct (subscribe w) as [w1 c1]. rewrite run_bare. reflexivity.
+Qed.
+
+Lemma reconnect_omit_untouched w om :
+  untouched w (fst (hstep w (OReconnectOmit om))) (snd (hstep w (OReconnectOmit om))).
+Proof. rewrite reconnect_omit_is_reconnect. apply reconnect_untouched. Qed.
+
+(* no reconciliation answer, whatever fields it carries, takes the lock of a roster task away *)
+Lemma answers_never_unlock w om :
+  step w (OAnswerBare om) = step w OAnswer /\
+  keeps (w_roster w) (w_roster (fst (step w (OAnswerBare om)))).
+Proof.
+  split; [apply step_bare|]. rewrite step_bare. cbn [step].
+  destruct (answer_untouched w) as [K _]. exact K.
 Qed.
 
 (* the status a roster task has plays no part in that: in the launch window (tasks accepted and in
@@ -1294,6 +1358,7 @@ Proof.
   - cbn [step]. change (crash_step w p k) with (step w (OCrash p k)).
     apply inv2_after_resub; [apply (inv1_crashstep w p k I)|apply live_ok_step; exact L].
   - cbn [step]. apply inv2_after_resub; [apply inv1_subscribe; exact I|exact L].
+  - cbn [step]. apply inv2_after_subscribe; assumption.
 Qed.
 
 Lemma resubscription_kills_orphans ops o ops' :
